@@ -407,8 +407,10 @@ func genCacheFacts(out string, root *pkgFiles) {
 	rep.Facts["cache.returns"] = fmt.Sprintf("success=%d hit=%d fresh=%d", succ, hitRet, freshRet)
 	switch cond {
 	case "(ok)&&((currentModTime.IsZero())||(cached.modTime.Equal(currentModTime)))":
-		sb.WriteString("def cacheStatFailureIsMiss : Bool := false\n")
-	case "((ok)&&(!statFailed))&&((currentModTime.IsZero())||(cached.modTime.Equal(currentModTime)))":
+		sb.WriteString("def cacheStatFailureIsMiss : Bool := false\ndef cacheZeroMtimeIsHit : Bool := true\n")
+	case "((ok)&&(!statFailed))&&((currentModTime.IsZero())||(cached.modTime.Equal(currentModTime)))", "((ok)&&(!statFailed))&&(cached.modTime.Equal(currentModTime))":
+		// a current modification time of zero answering from ANY entry ("cannot check") — or only from an entry recorded at the zero time
+		sb.WriteString("def cacheZeroMtimeIsHit : Bool := " + b2l(strings.Contains(cond, "IsZero")) + "\n")
 		// statFailed must be set exactly when fs.Stat fails
 		src := nodeText(root, fd)
 		if !strings.Contains(src, "} else {") || !strings.Contains(src, "statFailed = true") {
@@ -418,9 +420,9 @@ func genCacheFacts(out string, root *pkgFiles) {
 		sb.WriteString("def cacheStatFailureIsMiss : Bool := true\n")
 	default:
 		// the hit logic may be spread over helpers (a stat helper, a lookup helper): decide the same fact semantically
-		if miss, ok := cacheHitBySemantics(root, fd); ok {
+		if miss, zeroHit, ok := cacheHitBySemantics(root, fd); ok {
 			rep.Facts["cache.hitCondition"] = "(by semantics)"
-			sb.WriteString("def cacheStatFailureIsMiss : Bool := " + b2l(miss) + "\n")
+			sb.WriteString("def cacheStatFailureIsMiss : Bool := " + b2l(miss) + "\ndef cacheZeroMtimeIsHit : Bool := " + b2l(zeroHit) + "\n")
 			return
 		}
 		fail("loadCachedWithFrontMatter", fmt.Errorf("hit condition not recognised: %q", cond))
@@ -432,7 +434,7 @@ func genCacheFacts(out string, root *pkgFiles) {
 // is the conjunction of the negated guards of the helper that produced the entry (guards = `if G { return nil[, false] }`), with the
 // helper's parameters replaced by the caller's arguments. It answers (statFailureIsMiss, true) when the full condition implies that the
 // cache map held the key and that the modification time is zero or equal to the entry's; statFailureIsMiss = (full ⇒ fs.Stat succeeded).
-func cacheHitBySemantics(root *pkgFiles, fd *ast.FuncDecl) (bool, bool) {
+func cacheHitBySemantics(root *pkgFiles, fd *ast.FuncDecl) (bool, bool, bool) {
 	var hitCond ast.Expr
 	var hitInit ast.Stmt
 	ast.Inspect(fd.Body, func(n ast.Node) bool {
@@ -448,7 +450,7 @@ func cacheHitBySemantics(root *pkgFiles, fd *ast.FuncDecl) (bool, bool) {
 		return true
 	})
 	if hitCond == nil {
-		return false, false
+		return false, false, false
 	}
 	helperOf := func(call ast.Expr) (*ast.FuncDecl, *ast.CallExpr) {
 		ce, ok := call.(*ast.CallExpr)
@@ -503,7 +505,7 @@ func cacheHitBySemantics(root *pkgFiles, fd *ast.FuncDecl) (bool, bool) {
 		return true
 	})
 	if statFlag == "" {
-		return false, false
+		return false, false, false
 	}
 	// the full condition: C, and the negated guards of the helper that yields the entry
 	full := "(" + types.ExprString(hitCond) + ")"
@@ -553,7 +555,7 @@ func cacheHitBySemantics(root *pkgFiles, fd *ast.FuncDecl) (bool, bool) {
 	}
 	fe, err := parseExprString(full)
 	if err != nil || foundVar == "" {
-		return false, false
+		return false, false, false
 	}
 	role := func(a string) string {
 		switch {
@@ -568,13 +570,13 @@ func cacheHitBySemantics(root *pkgFiles, fd *ast.FuncDecl) (bool, bool) {
 		return a
 	}
 	if !implies(fe, "Z || E", role) || !implies(fe, foundVar, role) {
-		return false, false
+		return false, false, false
 	}
 	want := statFlag
 	if !statGoodWhenTrue {
 		want = "!" + statFlag
 	}
-	return implies(fe, want, role), true
+	return implies(fe, want, role), !implies(fe, "E", role), true
 }
 
 func containsIndexOf(n ast.Node, suffix string) bool {
